@@ -514,6 +514,43 @@ def input_cases(tier):
     return out
 
 
+def _duct_table_xy(c, dsn, scn, V):
+    """the x / y columns of the per-duct AssemblyTables files (type duct_mw) are centroids of THAT duct's wall
+    cells: every point lies on the mid-wall hexagon of the duct (largest projection on the six face normals =
+    (inner + outer flat-to-flat) / 4) and the points are six-fold symmetric"""
+    import glob
+    import os
+    scn = dict(scn, setup=dict(scn['setup'], Dump={'coolant': True, 'duct': True, 'average': True},
+                               AssemblyTables={'t1': {'type': 'duct_mw', 'assemblies': [1],
+                                                      'axial_positions': [0.05]}}))
+    ftf = sorted(dsn['duct_ftf'])
+    normals = [(math.cos(math.radians(a)), math.sin(math.radians(a))) for a in range(0, 360, 60)]
+    with S.Built(scn) as b:
+        rx = b.reactor(write_output=True)
+        rx.temperature_sweep()
+        rx.postprocess()
+        files = sorted(glob.glob(os.path.join(b.dir, 'temp_duct_mw_a=1*')), key=len)
+        if len(files) != len(ftf) // 2:
+            return          # file naming / number of files is not part of this property
+        for d, fn in enumerate(files):
+            rows = [ln.split(',') for ln in open(fn).read().strip().split('\n')][2:]
+            xy = np.array([[float(x[0]), float(x[1])] for x in rows])
+            apo = (ftf[2 * d] + ftf[2 * d + 1]) / 4.0
+            # orientation of the hexagon: flats or corners on the x axis - take the better of the two
+            best = None
+            for rot in (0.0, 30.0):
+                nn = [(math.cos(math.radians(a + rot)), math.sin(math.radians(a + rot))) for a in range(0, 360, 60)]
+                proj = np.max(np.array([xy[:, 0] * n[0] + xy[:, 1] * n[1] for n in nn]), axis=0)
+                dev = float(np.max(np.abs(proj - apo)))
+                best = dev if best is None else min(best, dev)
+            if best > 1e-9:
+                V.append(violation('duct-table-xy', dict(c, duct=d + 1),
+                                   'x / y columns of the duct_mw table of duct %d are not on the mid-wall hexagon of '
+                                   'that duct (apothem %.6g m): off by %.3g m' % (d + 1, apo, best), best, 0.0, 1e-9,
+                                   site='reactor.py:_write_asm_duct_table'))
+                return
+
+
 def run_input(c):
     """bundle of the assembly a real Reactor builds from an input file ([Setup] se2geo as stated) ==
     RoddedRegion constructed directly from the same dimensions and flag, geometry array by array"""
@@ -539,6 +576,8 @@ def run_input(c):
         r['outcome'] = 'failed'
         return r
     r['states'], r['transitions'], r['traces'], r['nontrivial'] = 2, 2, 1, True
+    if nd > 1 and not V:
+        _duct_table_xy(c, dsn, scn, V)
     for k in sorted(ref):
         if k.startswith(('params', 'bundle_params', 'bypass_params', 'duct_params', 'd.', 'L', 'subchannel',
                          'pin_lattice', 'n_')) and k in got and got[k] != ref[k]:
